@@ -168,7 +168,7 @@ package sql
 //@   ensures is(ty, *an.Map) || is(ty, *an.Union) ==> is(result, JSON) && as(result, JSON).t == ty
 //@   -- structs: nullable wrappers take the type of the wrapped field, all-integer structs are composite types, the rest is jsonb
 //@   ensures is(ty, *an.Struct) && IsNullXXX(as(ty, *an.Struct).Name) != nil && is(IsNullXXX(as(ty, *an.Struct).Name).Type().Underlying(), *types.Basic) && second(an.NewBasicKind(as(IsNullXXX(as(ty, *an.Struct).Name).Type().Underlying(), *types.Basic).Info())) ==> is(result, Builtin) && as(result, Builtin).t == ty && as(result, Builtin).name == basicTypeName(as(IsNullXXX(as(ty, *an.Struct).Name).Type().Underlying(), *types.Basic))
-//@   ensures is(ty, *an.Struct) && IsNullXXX(as(ty, *an.Struct).Name) != nil && !is(IsNullXXX(as(ty, *an.Struct).Name).Type().Underlying(), *types.Basic) && second(an.NewTime(IsNullXXX(as(ty, *an.Struct).Name).Type())) ==> is(result, Builtin) && as(result, Builtin).t == ty && (as(result, Builtin).name == "date" || as(result, Builtin).name == "timestamp (0) with time zone")
+//@   ensures is(ty, *an.Struct) && IsNullXXX(as(ty, *an.Struct).Name) != nil && !is(IsNullXXX(as(ty, *an.Struct).Name).Type().Underlying(), *types.Basic) && second(an.NewTime(IsNullXXX(as(ty, *an.Struct).Name).Type())) ==> is(result, Builtin) && as(result, Builtin).t == ty && as(result, Builtin).name == ite(strings.Contains(strings.ToLower(as(IsNullXXX(as(ty, *an.Struct).Name).Type(), *types.Named).Obj().Name()), "date"), "date", "timestamp (0) with time zone")
 //@   ensures is(ty, *an.Struct) && IsNullXXX(as(ty, *an.Struct).Name) != nil && !is(IsNullXXX(as(ty, *an.Struct).Name).Type().Underlying(), *types.Basic) && !second(an.NewTime(IsNullXXX(as(ty, *an.Struct).Name).Type())) ==> is(result, JSON) && as(result, JSON).t == ty
 //@   ensures is(ty, *an.Struct) && IsNullXXX(as(ty, *an.Struct).Name) == nil && isComposite(as(ty, *an.Struct)) ==> is(result, Composite) && as(result, Composite).t == ty
 //@   ensures is(ty, *an.Struct) && IsNullXXX(as(ty, *an.Struct).Name) == nil && !isComposite(as(ty, *an.Struct)) ==> is(result, JSON) && as(result, JSON).t == ty
@@ -183,14 +183,14 @@ package sql
 // one column per exported-or-guard field, in field order, typed by newType
 //@ func NewTable
 //@   props C08
-//@   requires s != nil && (forall i int :: 0 <= i && i < len(s.Fields) ==> s.Fields[i].Field != nil)
+//@   requires s != nil && s.Name != nil && (forall i int :: 0 <= i && i < len(s.Fields) ==> s.Fields[i].Field != nil)
 //@   -- the fields of a struct are distinct objects
 //@   requires forall i, j int :: 0 <= i && i < j && j < len(s.Fields) ==> s.Fields[i].Field != s.Fields[j].Field
 //@   ensures result.Name == s.Name
 //@   ensures forall k int :: 0 <= k && k < len(result.Columns) ==> (exists i int :: 0 <= i && i < len(s.Fields) && isColumn(s.Fields[i]) && result.Columns[k].Field == s.Fields[i] && result.Columns[k].SQLType == newType(s.Fields[i].Type))
 //@   ensures forall i int :: 0 <= i && i < len(s.Fields) && isColumn(s.Fields[i]) ==> (exists k int :: 0 <= k && k < len(result.Columns) && result.Columns[k].Field == s.Fields[i])
 //@   ensures forall k1, k2, i1, i2 int :: 0 <= k1 && k1 < k2 && k2 < len(result.Columns) && 0 <= i1 && i1 < len(s.Fields) && 0 <= i2 && i2 < len(s.Fields) && result.Columns[k1].Field.Field == s.Fields[i1].Field && result.Columns[k2].Field.Field == s.Fields[i2].Field ==> i1 < i2
-//@   ensures distinctCols(result)
+//@   ensures distinctCols(result) && result.Name != nil && (forall k int :: 0 <= k && k < len(result.Columns) ==> result.Columns[k].Field.Field != nil)
 //@   loop s.Fields.1 index n
 //@   loop s.Fields.1 invariant out.Name == s.Name
 //@   loop s.Fields.1 invariant forall k int :: 0 <= k && k < len(out.Columns) ==> (exists i int :: 0 <= i && i < n && isColumn(s.Fields[i]) && out.Columns[k].Field == s.Fields[i] && out.Columns[k].SQLType == newType(s.Fields[i].Type))
@@ -236,6 +236,7 @@ package sql
 //@   loop ta.Columns.1 invariant forall k int :: 0 <= k && k < len(out) ==> (exists i int :: 0 <= i && i < n && fkTarget(ta.Name.Obj().Name(), ta.Columns[i].Field) != "" && out[k].F == ta.Columns[i].Field && out[k].Target == fkTarget(ta.Name.Obj().Name(), ta.Columns[i].Field))
 //@   loop ta.Columns.1 invariant forall i int :: 0 <= i && i < n && fkTarget(ta.Name.Obj().Name(), ta.Columns[i].Field) != "" ==> (exists k int :: 0 <= k && k < len(out) && out[k].F == ta.Columns[i].Field)
 //@   loop ta.Columns.1 invariant forall k int :: 0 <= k && k < len(out) ==> (exists i int :: 0 <= i && i < n && out[k].F.Field == ta.Columns[i].Field.Field)
+//@   loop ta.Columns.1 invariant distinctCols(old(ta)) ==> forall k, i int :: 0 <= k && k < len(out) && 0 <= i && i < len(ta.Columns) && out[k].F.Field == ta.Columns[i].Field.Field ==> i < n
 //@   loop ta.Columns.1 invariant distinctCols(old(ta)) ==> forall k1, k2, i1, i2 int :: 0 <= k1 && k1 < k2 && k2 < len(out) && 0 <= i1 && i1 < len(ta.Columns) && 0 <= i2 && i2 < len(ta.Columns) && out[k1].F.Field == ta.Columns[i1].Field.Field && out[k2].F.Field == ta.Columns[i2].Field.Field ==> i1 < i2
 //@   loop ta.Columns.1 invariant isnil(out) || (fresh(out) && allocated(out))
 
@@ -255,7 +256,10 @@ package sql
 //@   nosafety
 //@   ensures result <==> is(b.t.Type(), *types.Named) && IsNullXXX(as(b.t.Type(), *types.Named)) != nil
 
-//@ pred structOK(s *an.Struct) bool = s != nil && (forall i int :: 0 <= i && i < len(s.Fields) ==> s.Fields[i].Field != nil) && (forall i, j int :: 0 <= i && i < j && j < len(s.Fields) ==> s.Fields[i].Field != s.Fields[j].Field)
+//@ pred structOK(s *an.Struct) bool = s != nil && s.Name != nil && (forall i int :: 0 <= i && i < len(s.Fields) ==> s.Fields[i].Field != nil) && (forall i, j int :: 0 <= i && i < j && j < len(s.Fields) ==> s.Fields[i].Field != s.Fields[j].Field)
+
+// what NewTable establishes and nothing later writes
+//@ pred tableWF(ta Table) bool = ta.Name != nil && distinctCols(ta) && (forall i int :: 0 <= i && i < len(ta.Columns) ==> ta.Columns[i].Field.Field != nil)
 
 // one table per struct of the analysed file
 //@ func SelectTables
@@ -264,7 +268,9 @@ package sql
 //@   requires ana != nil && (forall s *an.Struct :: is(s, *an.Struct) ==> structOK(s))
 //@   ensures forall k int :: 0 <= k && k < len(out) ==> (exists i int :: 0 <= i && i < len(ana.Source) && is(ana.Types[ana.Source[i]], *an.Struct) && out[k].Name == as(ana.Types[ana.Source[i]], *an.Struct).Name)
 //@   ensures forall i int :: 0 <= i && i < len(ana.Source) && is(ana.Types[ana.Source[i]], *an.Struct) ==> (exists k int :: 0 <= k && k < len(out) && out[k].Name == as(ana.Types[ana.Source[i]], *an.Struct).Name)
+//@   ensures forall k int :: 0 <= k && k < len(out) ==> tableWF(out[k])
 //@   loop ana.Source.1 index n
+//@   loop ana.Source.1 invariant forall k int :: 0 <= k && k < len(out) ==> tableWF(out[k])
 //@   loop ana.Source.1 invariant forall k int :: 0 <= k && k < len(out) ==> (exists i int :: 0 <= i && i < n && is(ana.Types[ana.Source[i]], *an.Struct) && out[k].Name == as(ana.Types[ana.Source[i]], *an.Struct).Name)
 //@   loop ana.Source.1 invariant forall i int :: 0 <= i && i < n && is(ana.Types[ana.Source[i]], *an.Struct) ==> (exists k int :: 0 <= k && k < len(out) && out[k].Name == as(ana.Types[ana.Source[i]], *an.Struct).Name)
 //@   loop ana.Source.1 invariant isnil(out) || (fresh(out) && allocated(out))
